@@ -91,14 +91,15 @@ def garbage_direction_last(act, x_scale):
     return (not np.isfinite(dn)) or dn > 1e6 * max(1.0, x_scale)
 
 
-def zero_evaluation_failure(searches):
+def zero_evaluation_failure(searches, x_scale=1.0):
     """A line search that gave up before evaluating anything: its maximum feasible step was zero
     (a variable on a bound whose direction component is a rounding-level non-zero pointing outward)
     or the direction was not a descent direction. Whether that happens is decided by the last bit of
     one component of d (DESIGN 7.4), so runs that differ only there are not comparable."""
     # (also: a search direction that is exactly zero - the Cauchy and subspace points coincide with x
     # because every variable is blocked; one ulp on a bound decides that)
-    return any(t[2] is None and (t[0] == t[1] or t[3] == 0.0) for t in searches)
+    tiny = 64.0 * EPS * max(1.0, x_scale)  # a direction at the rounding level of the iterate
+    return any(t[2] is None and (t[0] == t[1] or t[3] <= tiny) for t in searches)
 
 
 def compare_restart(problem, cfg, blob, x_ref, maxiter, pseed, stats, n_pert=5, ref_act=None, rel_step_tol=None, ref_searches_before=None):
@@ -119,7 +120,7 @@ def compare_restart(problem, cfg, blob, x_ref, maxiter, pseed, stats, n_pert=5, 
     ref_new = []
     if ref_act is not None and ref_searches_before is not None:
         ref_new = ref_act.ls_log[int(ref_searches_before):]
-    if zero_evaluation_failure(act.ls_log) != zero_evaluation_failure(ref_new) and ref_act is not None and ref_searches_before is not None:
+    if zero_evaluation_failure(act.ls_log, xs_scale) != zero_evaluation_failure(ref_new, xs_scale) and ref_act is not None and ref_searches_before is not None:
         stats["nj.zero_step_knife_edge"] += 1
         return "vacuous", {"reason": "one of the two runs met a line search with a zero maximum step"}, act
     if x.shape != x_ref.shape:
